@@ -584,9 +584,22 @@ func (r *Run) onQuiescent() {
 		}
 		found = append(found, Mirror(tx, r.st)...)
 		found = append(found, CompareModel(tx, r.st, committed, U.ByStore())...)
+		hadChild := map[string]bool{}
 		for _, ref := range trace {
+			if strings.HasPrefix(ref.Store, "child:") {
+				hadChild[ref.Id] = true
+			}
+		}
+		for _, ref := range trace {
+			if strings.HasPrefix(ref.Store, "child:") {
+				continue
+			}
 			if committed.snapOf(ref.Store, ref.Id) == "" {
-				found = append(found, NoTrace(tx, ref.Id)...)
+				if ref.Store == StPeople && hadChild[ref.Id] {
+					found = append(found, NoTrace(tx, ref.Id, "C15")...) // both parts, and everything the parent's constraints and links kept
+				} else {
+					found = append(found, NoTrace(tx, ref.Id)...)
+				}
 			}
 		}
 		if r.opt.AllViews || r.plan.Prop == "C15" {
